@@ -47,7 +47,8 @@ def _start_variant(args):
         return None
     import subprocess
     cwd = tlc.workdir('cwd')
-    return subprocess.Popen([sys.executable, '-O', '-W', 'ignore', os.path.abspath(__file__), args.pid, '--tier', args.tier, '--no-evidence'],
+    # always at the quick tier: the variant is about the environment of the process, not about depth
+    return subprocess.Popen([sys.executable, '-O', '-W', 'ignore', os.path.abspath(__file__), args.pid, '--tier', 'quick', '--no-evidence'],
                             env=dict(os.environ, VERIF_ENV_VARIANT=VARIANT), cwd=cwd, stdout=subprocess.PIPE, stderr=subprocess.STDOUT, text=True)
 
 
